@@ -39,8 +39,22 @@ func typeOf(sender, seq int) uint8 {
 	return mixed[(sender+2)%3][seq%3]
 }
 
+// flagsOf gives every frame a non-zero flags byte derived from its identifier: a
+// sender that drops or shares header fields between frames shows as a frame that is
+// not intact (seed C10-19 wrote every header with flags 0).
+func flagsOf(id uint32) uint8 { return uint8(id*37+11) | 1 }
+
+func hdr(typ uint8, service, object, action, id uint32) net.Header {
+	h := net.NewHeader(typ, service, object, action, id)
+	h.Flags = flagsOf(id)
+	return h
+}
+
 func intact(m *net.Message) bool {
 	if int(m.Header.Size) != len(m.Payload) {
+		return false
+	}
+	if m.Header.Flags != flagsOf(m.Header.ID) || m.Header.Magic != net.Magic || m.Header.Version != net.Version {
 		return false
 	}
 	sender, seq := m.Header.ID/100, m.Header.ID%100
@@ -111,7 +125,7 @@ func body(nSenders, perSender int, frag bool, typ uint8, blockedFirst bool) func
 			workers = append(workers, vrt.GoWorker(fmt.Sprintf("sender%d", s), func() {
 				for k := 0; k < perSender; k++ {
 					id := uint32(s*100 + k)
-					m := net.NewMessage(net.NewHeader(typeOf(s, k), uint32(s), 9, uint32(k+50), id), payload(id, sizes[(s+k)%len(sizes)]))
+					m := net.NewMessage(hdr(typeOf(s, k), uint32(s), 9, uint32(k+50), id), payload(id, sizes[(s+k)%len(sizes)]))
 					if err := a.Send(m); err != nil {
 						sendErr++
 					}
@@ -133,7 +147,7 @@ func body(nSenders, perSender int, frag bool, typ uint8, blockedFirst bool) func
 			want := 0
 			for sd := 1; sd <= nSenders; sd++ {
 				for k := 0; k < perSender; k++ {
-					h := net.NewHeader(typeOf(sd, k), uint32(sd), 9, uint32(k+50), uint32(sd*100+k))
+					h := hdr(typeOf(sd, k), uint32(sd), 9, uint32(k+50), uint32(sd*100+k))
 					if s.sel(&h) {
 						want++
 					}
@@ -227,7 +241,7 @@ func light() {
 		s := s
 		ws = append(ws, vrt.GoWorker(fmt.Sprintf("sender%d", s), func() {
 			id := uint32(s * 100)
-			a.Send(net.NewMessage(net.NewHeader(net.Post, uint32(s), 9, 50, id), payload(id, sizes[s%len(sizes)])))
+			a.Send(net.NewMessage(hdr(net.Post, uint32(s), 9, 50, id), payload(id, sizes[s%len(sizes)])))
 		}))
 	}
 	vrt.Quiesce()
@@ -289,7 +303,7 @@ func consumerBacklog() {
 	vrt.Explore()
 	for k := 0; k < 4; k++ {
 		fid := uint32(100 + k)
-		if err := a.Send(net.NewMessage(net.NewHeader(net.Post, 1, 9, uint32(k+50), fid), payload(fid, sizes[(1+k)%len(sizes)]))); err != nil {
+		if err := a.Send(net.NewMessage(hdr(net.Post, 1, 9, uint32(k+50), fid), payload(fid, sizes[(1+k)%len(sizes)]))); err != nil {
 			vrt.Failf("send-error", "send %d failed: %v", fid, err)
 		}
 	}
@@ -352,7 +366,7 @@ func wrapped() {
 		ws = append(ws, vrt.GoWorker(fmt.Sprintf("sender%d", s), func() {
 			for k := 0; k < 2; k++ {
 				id := uint32(s*100 + k)
-				m := net.NewMessage(net.NewHeader(net.Post, uint32(s), 9, uint32(k+50), id), payload(id, sizes[(s+k)%len(sizes)]))
+				m := net.NewMessage(hdr(net.Post, uint32(s), 9, uint32(k+50), id), payload(id, sizes[(s+k)%len(sizes)]))
 				if err := a.Send(m); err != nil {
 					failed[id] = true
 				} else {
@@ -442,7 +456,7 @@ func registration() {
 	}
 	for k := 0; k < 2; k++ {
 		id := uint32(100 + k)
-		m := net.NewMessage(net.NewHeader(net.Post, 1, 9, uint32(k+50), id), payload(id, sizes[(1+k)%len(sizes)]))
+		m := net.NewMessage(hdr(net.Post, 1, 9, uint32(k+50), id), payload(id, sizes[(1+k)%len(sizes)]))
 		a.Send(m)
 	}
 	vrt.Quiesce()
@@ -466,7 +480,7 @@ func finalizer() {
 	frameType = net.Post
 	for k := 0; k < 2; k++ {
 		id := uint32(100 + k)
-		if err := a.Send(net.NewMessage(net.NewHeader(net.Post, 1, 9, uint32(50+k), id), payload(id, sizes[(1+k)%len(sizes)]))); err != nil {
+		if err := a.Send(net.NewMessage(hdr(net.Post, 1, 9, uint32(50+k), id), payload(id, sizes[(1+k)%len(sizes)]))); err != nil {
 			vrt.Failf("harness/send", "%v", err)
 		}
 	}
@@ -485,7 +499,7 @@ func finalizer() {
 	})
 	// a late sender races the construction as well
 	w2 := vrt.GoWorker("late-sender", func() {
-		a.Send(net.NewMessage(net.NewHeader(net.Post, 1, 9, 52, 102), payload(102, sizes[3%len(sizes)])))
+		a.Send(net.NewMessage(hdr(net.Post, 1, 9, 52, 102), payload(102, sizes[3%len(sizes)])))
 	})
 	vrt.Quiesce()
 	if !w.Done() || !w2.Done() {
@@ -530,13 +544,13 @@ func limit() {
 	big[len(big)-1] = 0x5a
 	vrt.Explore()
 	w1 := vrt.GoWorker("sender-big", func() {
-		a.Send(net.NewMessage(net.NewHeader(net.Post, 1, 9, 50, 100), big[:len(big)-1]))
-		a.Send(net.NewMessage(net.NewHeader(net.Post, 1, 9, 51, 101), big))
-		a.Send(net.NewMessage(net.NewHeader(net.Post, 1, 9, 52, 102), []byte{1}))
+		a.Send(net.NewMessage(hdr(net.Post, 1, 9, 50, 100), big[:len(big)-1]))
+		a.Send(net.NewMessage(hdr(net.Post, 1, 9, 51, 101), big))
+		a.Send(net.NewMessage(hdr(net.Post, 1, 9, 52, 102), []byte{1}))
 	})
 	w2 := vrt.GoWorker("sender-small", func() {
-		a.Send(net.NewMessage(net.NewHeader(net.Post, 2, 9, 50, 200), []byte{2, 3}))
-		a.Send(net.NewMessage(net.NewHeader(net.Post, 2, 9, 51, 201), nil))
+		a.Send(net.NewMessage(hdr(net.Post, 2, 9, 50, 200), []byte{2, 3}))
+		a.Send(net.NewMessage(hdr(net.Post, 2, 9, 51, 201), nil))
 	})
 	vrt.Quiesce()
 	if !w1.Done() || !w2.Done() {
@@ -589,11 +603,11 @@ func afterFailedSends(inner func()) func() {
 				ca.Close()
 			}
 			vrt.Quiesce()
-			m := net.NewMessage(net.NewHeader(net.Post, 1, 9, 50, 100), payload(100, 5))
+			m := net.NewMessage(hdr(net.Post, 1, 9, 50, 100), payload(100, 5))
 			if e.Send(m) == nil {
 				vrt.Flag("send-on-dead-connection-succeeded")
 			}
-			m2 := net.NewMessage(net.NewHeader(net.Post, 1, 9, 50, 100), payload(100, 40))
+			m2 := net.NewMessage(hdr(net.Post, 1, 9, 50, 100), payload(100, 40))
 			if m2.Write(ca) == nil {
 				vrt.Flag("write-on-dead-connection-succeeded")
 			}
@@ -642,7 +656,7 @@ func manyHandlers() {
 	w := vrt.GoWorker("sender", func() {
 		for k := 0; k < 3; k++ {
 			id := uint32(100 + k)
-			a.Send(net.NewMessage(net.NewHeader(net.Post, 1, 9, uint32(50+k), id), payload(id, sizes[(1+k)%len(sizes)])))
+			a.Send(net.NewMessage(hdr(net.Post, 1, 9, uint32(50+k), id), payload(id, sizes[(1+k)%len(sizes)])))
 		}
 	})
 	vrt.Quiesce()
